@@ -417,7 +417,8 @@ def part_owner_xattr(ctx, scratch, quick):
 
 NAMES = [".hidden", ".hidden.txt", "..dots", "a.b.c.TXT", "archive.tar.gz", "UPPER.ZIP", "noext", "trailing.", ".", "x.Mp3", "photo.JPeG",
          "book.epub", "font.TTF", "movie.mkv", "lib.rs", "doc.docx", "weird.7z", "two..dots", "sp ace.txt", "ünï.çödé", "a.custom1",
-         "b.CUSTOM2", "data.bin", ".bashrc", "...", "x.y.z.w", "Makefile", "name.with.many.dots.tar.bz2"]
+         "b.CUSTOM2", "data.bin", ".bashrc", "...", "x.y.z.w", "Makefile", "name.with.many.dots.tar.bz2", "backup.tar.gz",
+         "BACKUP.TAR.GZ", "shot.raw", "straw", "sketch.RAW", "gz", "tar.gz", "x.targz"]
 CLASSES = ["is_archive", "is_audio", "is_book", "is_doc", "is_font", "is_image", "is_source", "is_video"]
 
 
@@ -435,9 +436,11 @@ def part_names(ctx, scratch, quick):
     configs = [None]
     for cls in CLASSES:
         configs.append({cls: [".custom1", ".custom2", ".bin"]})
+        # entries with an inner dot and entries without a leading dot: "the lower-cased name ends with the entry"
+        configs.append({cls: [".tar.gz", "raw"]})
     configs.append({c: [] for c in CLASSES})
     if quick:
-        configs = [None] + [ctx.rng.choice(configs[1:-1]) for _ in range(3)] + [configs[-1]]
+        configs = [None] + [ctx.rng.choice(configs[1:-1:2]) for _ in range(2)] + [ctx.rng.choice(configs[2:-1:2]) for _ in range(2)] + [configs[-1]]
     cols = ["name", "ext", "path", "dir", "abspath", "absdir", "is_hidden", "is_empty", "size"] + CLASSES
     q = "select %s from . into list" % ", ".join(cols)
     import extract_defaults
